@@ -61,6 +61,7 @@ type c04Case struct {
 	layout    int
 	methods   []int // confirmation Method per confirmation (index into confMethods)
 	firstFail int   // artifact over HTTP: 0 none; 1 the first back-channel call fails (transport error), 2 answers 503; any further call is answered with the FIRST request's ID
+	respIsResolveID bool // artifact entries, unsigned Response: its InResponseTo is the ID of the ArtifactResolve request (a back-channel ID, never one the caller declared outstanding)
 	noDest    bool  // Response carries no Destination (only meaningful when the Response itself is unsigned, layout 1)
 }
 
@@ -69,7 +70,7 @@ func (k c04Case) String() string {
 	for _, f := range k.confs {
 		cs = append(cs, f.kind)
 	}
-	return fmt.Sprintf("P=%s resp=%s conf=[%s] allowIDP=%v validator=%d entry=%d arIRT=%d arSigned=%v layout=%d nodest=%v methods=%v firstFail=%d", c04Sets[k.set].name, k.resp.kind, strings.Join(cs, ","), k.allowIDP, k.validator, k.entry, k.arIRT, k.arSigned, k.layout, k.noDest, k.methods, k.firstFail)
+	return fmt.Sprintf("P=%s resp=%s conf=[%s] allowIDP=%v validator=%d entry=%d arIRT=%d arSigned=%v layout=%d nodest=%v methods=%v firstFail=%d respIsResolveID=%v", c04Sets[k.set].name, k.resp.kind, strings.Join(cs, ","), k.allowIDP, k.validator, k.entry, k.arIRT, k.arSigned, k.layout, k.noDest, k.methods, k.firstFail, k.respIsResolveID)
 }
 
 func inSet(ids []string, v string) bool {
@@ -168,6 +169,9 @@ func runC04(c *core.Ctx) {
 		if k.entry == 3 && c.Rng.Intn(4) == 0 {
 			k.firstFail = 1 + c.Rng.Intn(2)
 		}
+		if k.entry >= 2 && k.firstFail == 0 && c.Rng.Intn(5) == 0 {
+			k.respIsResolveID, k.layout, k.resp = true, 1, fieldVal{kind: "artifact-resolve-id", val: "<set at delivery>"}
+		}
 		c04Run(c, o, k)
 	}
 }
@@ -175,7 +179,11 @@ func runC04(c *core.Ctx) {
 func c04Run(c *core.Ctx, o *so.Oracle, k c04Case) {
 	o.Reset()
 	c.Journal("C04 " + k.String())
-	sp := so.NewSP("meta-one-signing", fx.K("sp_rsa2048"))
+	if c04LiveSP == nil { // one SP object per process, reconfigured in place: earlier cases must not matter
+		c04LiveSP = so.NewSP("meta-one-signing", fx.K("sp_rsa2048"))
+	}
+	sp := c04LiveSP
+	sp.ValidateRequestID = nil
 	sp.AllowIDPInitiated = k.allowIDP
 	calls := 0
 	ids := c04Sets[k.set].ids
@@ -250,6 +258,10 @@ func c04Run(c *core.Ctx, o *so.Oracle, k c04Case) {
 			arBound = true
 		}
 		inner, _ := so.Parse(raw)
+		if k.respIsResolveID && inner != nil {
+			inner.CreateAttr("InResponseTo", resolveID)
+			k.resp.val = resolveID
+		}
 		ar := o.ArtifactResponseEl("x", fx.Now(), inner)
 		setOrRemoveAttr(ar, "InResponseTo", irt)
 		if k.arSigned {
@@ -393,3 +405,5 @@ func c04Run(c *core.Ctx, o *so.Oracle, k c04Case) {
 	c.Observe("outstanding_sets", c04Sets[k.set].name)
 	c.SampleSome(map[string]any{"case": k.String(), "accepted": perr == nil, "private_err": priv})
 }
+
+var c04LiveSP *saml.ServiceProvider
